@@ -405,11 +405,22 @@ func (f *Func) reachTarget(
 
 		// For value vertices, we discount any other values that share the
 		// same name. This lets our shortest paths prefer matching through
-		// same-named arguments.
-		if currentValue, ok := current.(*valueVertex); ok {
+		// same-named arguments. A typed argument of a converter that is
+		// being reached on behalf of a named value inherits that name: the
+		// path to the converter may have entered through another of its
+		// arguments, and its typed argument should still prefer the value
+		// that shares the name we are ultimately producing.
+		discountName := ""
+		switch cv := current.(type) {
+		case *valueVertex:
+			discountName = cv.Name
+		case *typedArgVertex:
+			discountName = state.Name
+		}
+		if discountName != "" {
 			currentG = currentG.Copy()
 			for _, raw := range currentG.Vertices() {
-				if v, ok := raw.(*valueVertex); ok && v.Name == currentValue.Name {
+				if v, ok := raw.(*valueVertex); ok && v.Name == discountName {
 					for _, src := range currentG.InEdges(raw) {
 						currentG.AddEdgeWeighted(src, raw, weightMatchingName)
 					}
@@ -481,10 +492,17 @@ func (f *Func) reachTarget(
 	}
 
 	// Go through each path
-	for _, path := range paths {
+	for i, path := range paths {
 		// finalValue will be set to our final value that we see when walking.
 		// This will be set as the value for this required input.
 		var finalValue reflect.Value
+
+		// While we walk the path of a named value, converters reached along
+		// the way resolve their own arguments on behalf of that name.
+		prevName := state.Name
+		if cv, ok := vertexT[i].(*valueVertex); ok {
+			state.Name = cv.Name
+		}
 
 		for pathIdx, vertex := range path {
 			log.Trace("executing node", "current", vertex)
@@ -496,6 +514,13 @@ func (f *Func) reachTarget(
 				if pathIdx > 0 {
 					prev := path[pathIdx-1]
 					if r, ok := prev.(*typedOutputVertex); ok {
+						log.Trace("setting node value", "value", r.Value)
+						v.Value = r.Value
+					}
+
+					// A named value without a subtype inherits from the
+					// same-named value with a subtype that precedes it.
+					if r, ok := prev.(*valueVertex); ok && !v.Value.IsValid() {
 						log.Trace("setting node value", "value", r.Value)
 						v.Value = r.Value
 					}
@@ -583,6 +608,7 @@ func (f *Func) reachTarget(
 		// We store the final value in the input map.
 		log.Trace("final value", "vertex", path[len(path)-1], "value", finalValue.Interface())
 		argMap[graph.VertexID(path[len(path)-1])] = finalValue
+		state.Name = prevName
 	}
 
 	// Reached our goal
@@ -668,6 +694,11 @@ type callState struct {
 
 	// Active is the set of function vertices currently being reached.
 	Active map[interface{}]struct{}
+
+	// Name is the name of the named value whose path is currently being
+	// walked (empty if none). Typed arguments resolved in the meantime
+	// prefer values with this name.
+	Name string
 }
 
 func newCallState() *callState {
